@@ -61,7 +61,13 @@ LAYOUTS = [
     ("lnk->/etc", {"lnk": "/etc"}),
     ("lnk->a/../..", {"lnk": "a/../.."}),
     ("lnk->lnk2->../..", {"lnk": "lnk2", "lnk2": "../.."}),
+    # thorough tier only (N_LAYOUTS_QUICK = 6)
+    ("lnk->/", {"lnk": "/"}),
+    ("lnk->.", {"lnk": "."}),
+    ("lnk->/../..", {"lnk": "/../.."}),
+    ("lnk->/dev/null", {"lnk": "/dev/null"}),      # a link whose target is the passthrough entry
 ]
+N_LAYOUTS_QUICK = 6
 PASSTHROUGH = [[], ["/dev/null"]]
 BASE = "file_sb"
 KEEP_PER_SIG = 2          # violation records kept per signature and shard (totals are counted)
@@ -235,6 +241,7 @@ class Tally(object):
         self.vs = []
         self.per_sig = {}
         self.results = set()
+        self.tmp_root = None
 
     def outcome(self, api, o):
         self.n += 1
@@ -242,6 +249,8 @@ class Tally(object):
         self.outcomes[k] = self.outcomes.get(k, 0) + 1
 
     def add(self, v):
+        if self.tmp_root:
+            v["what"] = v["what"].replace(self.tmp_root, "<tmp>")     # keep the witness text run-independent
         c = self.per_sig.get(v["sig"], 0)
         self.per_sig[v["sig"]] = c + 1
         if c < KEEP_PER_SIG:
@@ -251,15 +260,38 @@ class Tally(object):
 # ------------------------------------------------------------------------------------------------
 # the three APIs
 
+def resolve_cause(path, kind):
+    """The input feature that explains an escape of this kind (narrow signature = API + kind + cause)."""
+    _, climbs, stack = lexical_guest(path)
+    inner = any(c.startswith("lnk") for c in stack[:-1])
+    final = bool(stack) and stack[-1].startswith("lnk")
+    if kind == "dotdot-above-base":
+        if climbs and not path.startswith("/"):
+            return "relative-leading-dotdot"
+        if final:
+            return "final-link-target-climbs"
+    elif kind == "host-follows-symlink":
+        if inner:
+            return "inner-link"
+        if final:
+            return "final-link"
+    elif kind in ("relative-result", "absolute-outside"):
+        if final:
+            return "final-link"
+    return "unexplained:" + input_class(path)
+
+
 def check_resolve(sb, fs, pt, path, tally, layout_idx):
     """path: str; evaluated as str and as bytes, with follow_link True and False."""
     lex, _, _ = lexical_guest(path)
-    allowed = bool(pt) and (lex in pt or physical_guest(path, sb.links) in pt)
-    for follow in (True, False):
-        api = "resolve_path[%s]" % ("follow" if follow else "nofollow")
-        str_escaped = False
-        for as_bytes in (False, True):
-            arg = path.encode() if as_bytes else path
+    # lenient on purpose: lexical, symlink-aware, and lexical-then-symlink-aware readings of the input all count
+    allowed = bool(pt) and (lex in pt or physical_guest(path, sb.links) in pt or physical_guest(lex, sb.links) in pt)
+    str_found = None
+    for as_bytes in (False, True):
+        arg = path.encode() if as_bytes else path
+        found = {}                      # follow -> (kind, cause, result)
+        for follow in (True, False):
+            api = "resolve_path[%s]" % ("follow" if follow else "nofollow")
             try:
                 res = fs.resolve_path(arg, follow_link=follow)
             except RecursionError:
@@ -269,29 +301,39 @@ def check_resolve(sb, fs, pt, path, tally, layout_idx):
                 tally.outcome(api, "refused:%s" % type(e).__name__)
                 continue
             tally.results.add(res)
-            if as_bytes != isinstance(res, bytes):
-                # wrong string type is not an escape by itself; judged on the path it denotes
-                tally.outcome(api, "note:result-type-differs-from-argument")
             kind = sb.verdict(res, not follow, False)
             if kind is None:
                 tally.outcome(api, "inside")
-                continue
-            if allowed:
+            elif allowed:
                 tally.outcome(api, "passthrough-allowed")
-                continue
-            tally.outcome(api, "escape:" + kind)
-            sig = "%s:%s:%s" % (api, input_class(path), kind)
-            if as_bytes:
-                if str_escaped:
-                    continue            # same defect as the str twin, already recorded
-                sig += ":bytes-only"
             else:
-                str_escaped = True
+                tally.outcome(api, "escape:" + kind)
+                found[follow] = (kind, resolve_cause(path, kind), res)
+        if not as_bytes:
+            str_found = found
+        suffix = ""
+        if as_bytes:
+            # the bytes twin is only reported where it behaves differently from the str twin
+            found = dict((f, v) for f, v in found.items() if str_found.get(f, (None, None))[:2] != v[:2])
+            suffix = ":bytes-differs-from-str"
+        if len(found) == 2 and found[True][:2] == found[False][:2]:
+            emit = [("any", found[True], True)]
+        else:
+            emit = [("follow" if f else "nofollow", found[f], f) for f in (True, False) if f in found]
+        for mode, (kind, cause, res), follow in emit:
             tally.add(violation(
-                sig,
+                "resolve_path[%s]:%s:%s%s" % (mode, kind, cause, suffix),
                 "layout %s, passthrough %r: resolve_path(%r, follow_link=%r) = %r, which the host resolves outside the "
                 "base %r" % (sb.layout_name, pt, arg, follow, res, sb.base),
                 {"api": "resolve_path", "layout": layout_idx, "pt": pt, "path": path}))
+
+
+def sbpath_sig(api, path, sep, kind):
+    """*_to_sbpath do no link handling and no passthrough: the escape kind names the cause, unless the input lacks it."""
+    _, climbs, stack = lexical_guest(path, sep)
+    explained = climbs if kind == "dotdot-above-base" else (
+        any(c.startswith("lnk") for c in path.split(sep)) if kind == "host-follows-symlink" else False)
+    return "%s:%s%s" % (api, kind, "" if explained else ":unexplained:" + input_class(path, sep))
 
 
 def check_unix(sb, path, tally, layout_idx):
@@ -309,14 +351,14 @@ def check_unix(sb, path, tally, layout_idx):
         return
     tally.outcome(api, "escape:" + kind)
     tally.add(violation(
-        "%s:%s:%s" % (api, input_class(path), kind),
+        sbpath_sig(api, path, "/", kind),
         "layout %s: unix_to_sbpath(%r) = %r, which the host resolves outside the base %r" % (sb.layout_name, path, res, BASE),
         {"api": api, "layout": layout_idx, "path": path}))
 
 
 def check_windows(sb, path, sep, drive, tally, layout_idx):
     from miasm.os_dep.common import windows_to_sbpath
-    api = "windows_to_sbpath[%s%s]" % ("backslash" if sep == "\\" else "slash", ",drive" if drive else "")
+    api = "windows_to_sbpath"
     try:
         res = windows_to_sbpath(path)
     except Exception as e:
@@ -330,7 +372,7 @@ def check_windows(sb, path, sep, drive, tally, layout_idx):
     tally.outcome(api, "escape:" + kind)
     body = path[len(drive):]
     tally.add(violation(
-        "%s:%s:%s" % (api, input_class(body, sep), kind),
+        sbpath_sig(api, body, sep, kind),
         "layout %s: windows_to_sbpath(%r) = %r, which the host resolves outside the base %r" % (sb.layout_name, path, res, BASE),
         {"api": "windows_to_sbpath", "layout": layout_idx, "path": path, "sep": sep, "drive": drive}))
 
@@ -364,6 +406,7 @@ def _shard(args):
     tally = Tally()
     nt = 0
     with Sandbox(layout_idx) as sb:
+        tally.tmp_root = sb.root
         fs = make_fs(pt) if kind[0].startswith("resolve") else None
         for s in mine:
             if kind[0].startswith("resolve"):
@@ -384,15 +427,17 @@ def _shard(args):
 
 
 def run(ctx):
+    # maxc: main lattice; maxc_main_pt: main lattice again with the passthrough set configured (it has no component
+    # that can match the entry, so this only shows that configuring a passthrough loosens nothing); maxc_pt: second lattice
     if ctx.quick:
-        maxc, maxc_pt, nsh = 4, 4, 2
+        maxc, maxc_main_pt, maxc_pt, nsh, nlay = 5, 4, 4, 8, N_LAYOUTS_QUICK
     else:
-        maxc, maxc_pt, nsh = 5, 5, 8
+        maxc, maxc_main_pt, maxc_pt, nsh, nlay = 6, 6, 5, 16, len(LAYOUTS)
     nsh_small = max(1, nsh // 4)        # the pure string mappings are much cheaper per case
     shards = []
-    for li in range(len(LAYOUTS)):
+    for li in range(nlay):
         for pt in PASSTHROUGH:
-            shards += [(("resolve",), li, pt, maxc, maxc_pt, i, nsh) for i in range(nsh)]
+            shards += [(("resolve",), li, pt, maxc_main_pt if pt else maxc, maxc_pt, i, nsh) for i in range(nsh)]
         shards += [(("resolve_pt",), li, PASSTHROUGH[1], maxc, maxc_pt, i, nsh) for i in range(nsh)]
         shards += [(("unix",), li, [], maxc, maxc_pt, i, nsh_small) for i in range(nsh_small)]
         for sep in ("\\", "/"):
@@ -404,6 +449,7 @@ def run(ctx):
     per_sig = {}
     per_api = {}
     n = nt = 0
+    all_vs = []
     for r in res:
         n += r["n"]
         nt += r["nt"]
@@ -412,7 +458,10 @@ def run(ctx):
             outcomes[k] = outcomes.get(k, 0) + v
         for k, v in r["per_sig"].items():
             per_sig[k] = per_sig.get(k, 0) + v
-        ctx.add_violations(r["vs"])
+        all_vs += r["vs"]
+    # smallest witness first: the runner prints the first record of every signature
+    all_vs.sort(key=lambda v: (len(v["case"]["path"]), v["case"]["layout"], v["case"]["path"]))
+    ctx.add_violations(all_vs)
     refused = sum(v for k, v in outcomes.items() if "|refused:" in k)
     escapes = sum(v for k, v in outcomes.items() if "|escape:" in k)
     inside = sum(v for k, v in outcomes.items() if k.endswith("|inside"))
@@ -424,8 +473,8 @@ def run(ctx):
         "distinct_nontrivial": nt,
         "samples": samples,
         "exhaustive": True,
-        "bounds": {"max_components": maxc, "components": list(COMPONENTS), "max_components_passthrough_lattice": maxc_pt,
-                   "passthrough_components": list(PT_COMPONENTS), "layouts": [l[0] for l in LAYOUTS],
+        "bounds": {"max_components": maxc, "max_components_main_lattice_with_passthrough_configured": maxc_main_pt, "components": list(COMPONENTS), "max_components_passthrough_lattice": maxc_pt,
+                   "passthrough_components": list(PT_COMPONENTS), "layouts": [l[0] for l in LAYOUTS[:nlay]],
                    "passthrough_sets": PASSTHROUGH, "string_types": ["str", "bytes (resolve_path only)"],
                    "windows_separators": ["\\", "/"], "windows_drive_prefix": ["", "C:"]},
         "distinct_strings_unix": len(unix_strings(COMPONENTS, maxc)),
@@ -447,6 +496,7 @@ def replay(case):
     tally = Tally()
     li = case["layout"]
     with Sandbox(li) as sb:
+        tally.tmp_root = sb.root
         if case["api"] == "resolve_path":
             pt = list(case.get("pt") or [])
             check_resolve(sb, make_fs(pt), pt, case["path"], tally, li)
